@@ -4,6 +4,7 @@ and simulated; every address of the root bus is exercised and what the hardware 
 with what the root memory map says (decode_address / all_resources / find_resource)."""
 import math
 from . import lib, simutil
+from amaranth.hdl import Fragment
 from .muxsim import El
 from amaranth import Module, Signal
 from amaranth.sim import Simulator
@@ -43,6 +44,8 @@ def build(rnd, rnd2=None):
             kids = []
             for i in range(rnd.randint(1, 3)):
                 b, d = csr_leaf(aw - 1, depth - 1)
+                if rnd2.random() < .1:
+                    Fragment.get(dec, None)          # a decoder elaborated before a later add() still decodes everything
                 try:
                     if rnd.random() < .45:
                         st = dec.add(b, name=None if rnd.random() < .3 else f"k{i}")[0]
@@ -99,7 +102,12 @@ def build(rnd, rnd2=None):
             except ValueError:
                 pass
         mm = MemoryMap(addr_width=aw, data_width=cdw, alignment=rnd.choice([0, 0, 1]))
+        early_at = rnd2.randint(0, 1) if rnd2.random() < .15 else None
+        mux = None
         for i in range(rnd.randint(1, 4)):
+            if i == early_at:
+                # the multiplexer does not freeze its map: registers added after its construction are decoded too
+                mux = csr.Multiplexer(mm, shadow_overlaps=rnd2.choice([None, None, 2]))
             w = rnd.choice([1, cdw, cdw + 1, 2 * cdw, 3 * cdw])
             e = El(w, rnd.choice(["r", "w", "rw", "rw"]))
             try:
@@ -108,7 +116,9 @@ def build(rnd, rnd2=None):
                 keep.append(e)
             except ValueError:
                 pass
-        mux = csr.Multiplexer(mm, shadow_overlaps=rnd.choice([None, None, 2]))
+        ov = rnd.choice([None, None, 2])
+        if mux is None:
+            mux = csr.Multiplexer(mm, shadow_overlaps=ov)
         m.submodules[f"mux{len(keep)}"] = mux; keep.append(mux)
         return mux.bus, ("leaf", mux.bus)
 
@@ -132,6 +142,8 @@ def build(rnd, rnd2=None):
             sub = br.wb_bus
             m.submodules[f"wbbr{i}"] = br
             leafdesc = ("bridge", d)
+        if rnd2.random() < .1:
+            Fragment.get(root, None)                 # the root decoder was already elaborated once before this add()
         try:
             if rnd.random() < .45:
                 root.add(sub, name=None if rnd.random() < .3 else f"w{i}")
